@@ -1,36 +1,5 @@
 """C01 — persistent sending queue never loses an accepted request across crashes."""
-import json
-import os
-import re
 import vlib
-
-HERE = os.path.dirname(os.path.abspath(__file__))
-
-# Proposed known findings live next to this file until the integrator merges them into
-# /verif/known_findings.json; both sources are honoured (an id present in both: the global file wins).
-_global_known = vlib.known_findings
-
-
-def _known(pid):
-    ks = list(_global_known(pid))
-    if pid != "C01":
-        return ks
-    have = {k.get("id") for k in ks}
-    # a finding that the global file lists for C01 with another status (e.g. fixed) is NOT re-opened here
-    try:
-        allg = json.load(open(os.path.join(vlib.VERIF, "known_findings.json"))).get("findings", [])
-    except Exception:
-        allg = []
-    have |= {f.get("id") for f in allg if f.get("property") == "C01"}
-    p = os.path.join(HERE, "findings.json")
-    if os.path.exists(p):
-        for f in json.load(open(p)).get("findings", []):
-            if f.get("property") == pid and f.get("status", "open") == "open" and f.get("id") not in have:
-                ks.append(f)
-    return ks
-
-
-vlib.known_findings = _known
 
 
 class P(vlib.Prop):
@@ -68,13 +37,3 @@ class P(vlib.Prop):
         "blockOnOverflow = false (with blocking, finding F2 turns into a Start that never returns)",
         "request bodies are 8-byte little-endian ids (the marshalled form of real requests is C08's business)",
     ]
-
-    def match_known(self, finding, failure):
-        sig = finding.get("signature", {})
-        kinds = sig.get("kinds") or [sig.get("kind")]
-        if failure["kind"] not in kinds:
-            return False
-        rx = sig.get("detail_regex")
-        if rx and not re.search(rx, failure["detail"]):
-            return False
-        return True
